@@ -288,6 +288,10 @@ def run_realnet(cfg, out):
     return len(log)
 
 
+class ApplicationError(Exception):
+    """an exception class of the application's own"""
+
+
 class Scenario(object):
     def __init__(self, r, key, out):
         import mpgameserver.context as CTX
@@ -296,8 +300,24 @@ class Scenario(object):
         self.key = key
         self.out = out
         self.c = out["counters"]
-        self.w = L.World(r, dt=1 / 60, ctxt_setup=lambda ctxt: (ctxt.setConnectionTimeout(r.choice([0.5, 1.0, 2.0])),
-                                                               ctxt.setTempConnectionTimeout(0.5)))
+        # a stream of its own decides about the configuration / exception variants (the worlds themselves stay as they were)
+        self.rv = rng("C10", *(list(key) + ["variants"]))
+        # the context's access log (ServerContext.enableAccessLogs, a documented configuration) is switched on in half of the worlds
+        self.access_log_dir = None
+        if self.rv.random() < 0.5:
+            import tempfile
+            self.access_log_dir = tempfile.mkdtemp(prefix="c10_access_")
+            self.c.inc("worlds_with_access_log")
+        # a coarse clock (timer granularity of the platform) in half of the worlds: it stands still across some ticks of the loop
+        self.coarse_clock = self.rv.random() < 0.5
+
+        def ctxt_setup(ctxt):
+            ctxt.setConnectionTimeout(r.choice([0.5, 1.0, 2.0]))
+            ctxt.setTempConnectionTimeout(0.5)
+            if self.access_log_dir:
+                import os as _os
+                ctxt.enableAccessLogs(_os.path.join(self.access_log_dir, "access.log"))
+        self.w = L.World(r, dt=1 / 60, ctxt_setup=ctxt_setup)
         w = self.w
         self.orig_os = CTX.os
         CTX.os = OsShim(r, w, self.c)
@@ -320,6 +340,7 @@ class Scenario(object):
         self.raise_p = r.choice([0.0, 0.05, 0.2])
         self.raised = Counter()
         self.flow_check = []         # (event index of a raise, server iteration at that time)
+        self.pending_after_raise = []    # (event index behind the raising message event, client id, addr, messages waiting behind it)
         h = w.handler
         h.on["connect"] = [self.on_connect]
         h.on["disconnect"] = [self.on_disconnect]
@@ -340,11 +361,41 @@ class Scenario(object):
         if sum(1 for v in self.out["violations"] if v["mechanism"] == mech) < 5:
             self.out["violations"].append({"mechanism": mech, "msg": msg, "case_key": self.key, "case": {"case": self.key}})
 
-    def maybe_raise(self, event):
+    def maybe_raise(self, event, client=None, current=None):
         if self.r.random() < self.raise_p:
             self.raised.inc(event)
             self.c.inc("handler_raised_in_" + event)
             self.flow_check.append((len(self.w.handler.log), self.w.server_iterations, event))
+            if event == "message" and client is not None:
+                # the messages of the same datagram the connection has already handed over and that wait behind this one
+                inc = list(getattr(client, "incoming_messages", ()) or ())
+                at = [i for i, (s_, m_) in enumerate(inc) if int(s_) == int(current[0]) and m_ is current[1]]
+                if len(at) == 1:
+                    self.pending_after_raise.append((len(self.w.handler.log), id(client), client.addr,
+                                                     [(int(s_), m_) for (s_, m_) in inc[at[0] + 1:]]))
+            # a family of exceptions: with a text, without any argument, a failing bare assert, arguments that are not text,
+            # classes of the application's own
+            kind = self.rv.choice(["text", "text", "no-args", "no-args-value", "bare-assert", "key-error-no-args", "non-text-arg",
+                                   "own-class-no-args", "own-class-many-args", "none-arg"])
+            self.c.inc("handler_raised_kind_" + kind)
+            if kind in ("no-args", "no-args-value", "bare-assert", "key-error-no-args", "own-class-no-args"):
+                self.c.inc("handler_raised_with_empty_args_in_" + event)
+            if kind == "no-args":
+                raise RuntimeError()
+            if kind == "no-args-value":
+                raise ValueError()
+            if kind == "bare-assert":
+                assert False
+            if kind == "key-error-no-args":
+                raise KeyError()
+            if kind == "non-text-arg":
+                raise RuntimeError(self.rv.choice([0, b"\xff\x00", ("%d", "%s"), {}, 1.5]))
+            if kind == "own-class-no-args":
+                raise ApplicationError()
+            if kind == "own-class-many-args":
+                raise ApplicationError("seeded %s %d", event, 3)
+            if kind == "none-arg":
+                raise RuntimeError(None)
             raise RuntimeError("seeded handler failure in %s" % event)
 
     # ---- the challenge response message (the library's own serialization layer, as C02c)
@@ -395,6 +446,10 @@ class Scenario(object):
         if self.r.random() < 0.1:
             client.disconnect()          # server-initiated disconnect from inside connect
             self.c.inc("server_disconnect_in_connect")
+            if self.access_log_dir:
+                self.c.inc("server_disconnect_in_connect_with_access_log")
+                if self.coarse_clock:
+                    self.c.inc("server_disconnect_in_connect_with_access_log_and_coarse_clock")
         elif self.r.random() < 0.3:
             client.send(L.make_payload(0, self.r.randrange(1 << 30), 20))
         elif self.r.random() < 0.4:
@@ -420,7 +475,7 @@ class Scenario(object):
         elif self.r.random() < 0.2:
             client.send_guaranteed(msg)
             self.c.inc("server_guaranteed_sends")
-        self.maybe_raise("message")
+        self.maybe_raise("message", client, (seqnum, msg))
 
     def on_update(self, dt):
         # datagrams also arrive WHILE a tick is running (the socket thread appends them whenever it likes): junk from the addresses
@@ -642,7 +697,11 @@ class Scenario(object):
                     else:
                         w.net.inject("c2s", addr, r.randbytes(r.randint(20, 60)), "random")
                     self.c.inc("junk_from_silent_addresses")
-            w.step()
+            if self.coarse_clock and self.rv.random() < 0.5:
+                w.step(dt_override=0.0)      # a tick during which the (non-decreasing) clock reads the same as before
+                self.c.inc("ticks_with_the_clock_standing_still")
+            else:
+                w.step()
             if not w.alive():
                 break
             if len(recent) > 3000:
@@ -739,6 +798,19 @@ class Scenario(object):
                 self.viol("events-stop-after-handler-exception", "no handler event after the exception raised in %s" % event)
             else:
                 self.c.inc("flow_after_exception_checked")
+        # ... also within one datagram: the messages that waited behind a message whose handler raised are the very next events
+        for idx, cid, addr, waiting in self.pending_after_raise:
+            if not waiting:
+                self.c.inc("raises_in_the_last_message_of_a_datagram")
+                continue
+            self.c.inc("raises_with_messages_waiting_behind_checked")
+            got = [(e[0], e[3], e[6]) for e in log[idx:idx + len(waiting)]]
+            want = [("message", cid, (s_, m_)) for (s_, m_) in waiting]
+            if [(g[0], g[1], g[2][0] if g[0] == "message" else None, bytes(g[2][1]) if g[0] == "message" else None) for g in got] != \
+                    [(x[0], x[1], x[2][0], bytes(x[2][1])) for x in want]:
+                self.viol("messages-dropped-after-handler-exception", "the handler raised in a message event of the client at %s while %d more "
+                          "messages of the same datagram waited behind it (seqnums %r): the events that followed are %r" % (
+                              addr, len(waiting), [x[0] for x in waiting], [(g[0], g[2][0] if g[0] == "message" else None) for g in got]))
         self.out["distinct"].add(h64(self.key, len(log)))
         if len(self.out["samples"]) < 2:
             brief = [(e[0], e[4]) for e in log if e[0] != "update"][:30]
@@ -751,6 +823,17 @@ class Scenario(object):
             self.w.stop()
         except Exception:
             pass
+        if self.access_log_dir:
+            import logging
+            import shutil
+            lg = logging.getLogger("mpgameserver.AccessLog")
+            for hd in list(lg.handlers):
+                lg.removeHandler(hd)
+                try:
+                    hd.close()
+                except Exception:
+                    pass
+            shutil.rmtree(self.access_log_dir, ignore_errors=True)
 
 
 def run_shard(cfg):
@@ -783,14 +866,17 @@ def finish(tier, seed, results):
                          "flow_after_exception_checked", "messages_attributed_to_their_client", "act_hostile_datagram", "realnet_runs",
                          "realnet_sends", "realnet_stop_during_blocked_handler", "silence_timeouts_checked", "junk_from_silent_addresses", "rogue_sealed_datagrams", "junk_offered_inside_the_tick", "server_guaranteed_sends", "act_blocklist_connected_client", "last_tick_kick_chains",
                          "server_disconnect_in_disconnect", "shutdown_called_from_handler", "wrong_token_challenge_responses",
-                         "connects_with_proof_of_key_and_token"], inconclusive)
+                         "connects_with_proof_of_key_and_token", "server_disconnect_in_connect_with_access_log",
+                         "server_disconnect_in_connect_with_access_log_and_coarse_clock", "ticks_with_the_clock_standing_still",
+                         "handler_raised_with_empty_args_in_message", "raises_with_messages_waiting_behind_checked"], inconclusive)
     cov = {
         "evaluations": m["evaluations"],
         "distinct_nontrivial": m["distinct_nontrivial"],
         "rule": "one evaluation = one connect/message/disconnect handler event judged against the per-client lifecycle automaton; worlds of up "
                 "to 4/12/40 client addresses with seeded actions per tick (connect, send, client disconnect, go silent, reconnect from the "
                 "same address while connected, server-side disconnect inside connect/message/update, hostile datagrams), seeded handler "
-                "exceptions in every event type, token draws that repeat live tokens, shutdown at a seeded tick; rogue peers that hold a session "
+                "exceptions in every event type (with a text, without arguments, bare assert, non-text arguments, own classes; the messages "
+                "of the same datagram that wait behind a raising message event are the next events), the context's access log enabled in half of the worlds, a coarse clock that stands still across half of the ticks in half of the worlds, token draws that repeat live tokens, shutdown at a seeded tick; rogue peers that hold a session "
                 "key but never answered the challenge and seal APP / CHALLENGE_RESP-typed multi-message datagrams; peers that hold a session key and answer the challenge with a "
                 "well-formed, sealed single CHALLENGE_RESP carrying a token the server did not issue to them (token+-1, 0, random, bit flip, "
                 "another live peer's token, wider / negative / truncated values), then APP and DISCONNECT datagrams, one style finally the right "
